@@ -614,4 +614,20 @@ def scale_relies_on_thickness_edit(ctx):
     return r
 
 
-RULES = [scale_homogeneous, scale_system, scale_relies_on_thickness_edit, mirror, w_flow, dummy_identity]
+def c01_arg_wiring_rule(ctx):
+    """shared with C01: the prescription this property reads (media on both
+    sides of each surface, placement and tilt of the surface frames) is the
+    one the editing API was given."""
+    from .C01 import arg_wiring_rule as _r
+    return _r(ctx)
+
+
+def c01_init_stores(ctx):
+    """shared with C01: the prescription this property reads (media on both
+    sides of each surface, placement and tilt of the surface frames) is the
+    one the editing API was given."""
+    from .C01 import init_stores as _r
+    return _r(ctx)
+
+
+RULES = [c01_arg_wiring_rule, c01_init_stores, scale_homogeneous, scale_system, scale_relies_on_thickness_edit, mirror, w_flow, dummy_identity]
